@@ -8,6 +8,7 @@ CONSTANTS
   PWs = {"p1"}
   PubPWs = {"pub1"}
   Names = {"alice"}
+  XNames = {"xacct"}
   ImpIds = {"k1"}
   MaxSync = 1
   Outcomes = {"commit", "rollback"}
